@@ -14,8 +14,6 @@ package agreement
 // After the synchrony point the adversary is silent.
 
 import (
-	"time"
-
 	"github.com/algorand/go-algorand/data/basics"
 	"github.com/algorand/go-algorand/data/bookkeeping"
 	"github.com/algorand/go-algorand/protocol"
@@ -68,8 +66,6 @@ func haNewAdv(run *haRun) *haAdv {
 
 func (a *haAdv) does(what string) bool { return a.mode == what || a.mode == "mix" }
 
-func (a *haAdv) nextWake() (time.Duration, bool) { return 0, false }
-
 // inject puts an adversary message in front of dst now.
 func (a *haAdv) inject(dst int, tag protocol.Tag, data []byte, dup bool) {
 	a.run.push(&haPending{at: a.run.cl.Now(), dst: dst, src: haAdversary, tag: tag, data: data, dup: dup})
@@ -120,7 +116,7 @@ func (a *haAdv) noteEquiv(acc *haAccount, r basics.Round, p period, s step, v pr
 
 // observe sees one honest wire message.
 func (a *haAdv) observe(w *haWire) {
-	if len(a.accs) == 0 || !(a.does("echo") || a.does("silence")) {
+	if len(a.accs) == 0 || !(a.does("echo") || a.does("silence") || a.does("pairs")) {
 		return
 	}
 	switch w.tag {
@@ -135,6 +131,10 @@ func (a *haAdv) observe(w *haWire) {
 		}
 		if uv.R.Step == propose {
 			a.doublePropose(uv.R.Round, uv.R.Period)
+			return
+		}
+		if a.mode == "pairs" {
+			a.pairs(uv.R)
 			return
 		}
 		a.echo(w.src, uv.R)
@@ -184,6 +184,37 @@ func (a *haAdv) echo(src int, rv rawVote) {
 				a.noteEquiv(acc, rv.Round, rv.Period, rv.Step, rv.Proposal)
 			}
 			a.inject(d, protocol.AgreementVoteTag, protocol.Encode(&uv), false)
+		}
+	}
+}
+
+// pairs: towards every node, each adversary account votes for a decoy value first and then for the value the
+// honest nodes vote for, in the same (round, period, step): every node sees the equivocation, must count the
+// weight once for the honest value, and packs the pair into the bundle/certificate when it needs the weight.
+func (a *haAdv) pairs(rv rawVote) {
+	if rv.Proposal == bottom {
+		return
+	}
+	run := a.run
+	decoy := rv.Proposal
+	decoy.BlockDigest[0] ^= 0x55
+	decoy.EncodingDigest[0] ^= 0x55
+	for _, acc := range a.accs {
+		k := haEchoKey{-2, acc.idx, rv.Round, rv.Period, rv.Step, rv.Proposal}
+		if a.echoed[k] {
+			continue
+		}
+		a.echoed[k] = true
+		u1, ok1 := a.vote(acc, rv.Round, rv.Period, rv.Step, decoy)
+		u2, ok2 := a.vote(acc, rv.Round, rv.Period, rv.Step, rv.Proposal)
+		if !ok1 || !ok2 {
+			continue
+		}
+		a.noteEquiv(acc, rv.Round, rv.Period, rv.Step, decoy)
+		a.noteEquiv(acc, rv.Round, rv.Period, rv.Step, rv.Proposal)
+		for d := range run.cl.nodes {
+			a.inject(d, protocol.AgreementVoteTag, protocol.Encode(&u1), false)
+			a.inject(d, protocol.AgreementVoteTag, protocol.Encode(&u2), false)
 		}
 	}
 }
